@@ -36,7 +36,7 @@ impl Axecutor {
             Operand::Register(r) => self.reg_read_8(r)?,
             Operand::Memory(m) => self.mem_read_8(self.mem_addr(m))?,
             _ => fatal_error!("Invalid operand {:?} for Idiv_rm8", op),
-        } as i16;
+        } as u8 as i8 as i16; // the divisor is signed
 
         if src_val == 0 {
             return Err(AxError::from(format!(
@@ -44,7 +44,18 @@ impl Axecutor {
             )));
         }
 
-        let (quotient, remainder) = (ax / src_val, ax % src_val);
+        // Widened so that i16::MIN / -1 cannot overflow; the quotient check below rejects it
+        let (quotient, remainder) = (
+            (ax as i32) / (src_val as i32),
+            (ax as i32) % (src_val as i32),
+        );
+
+        // The CPU raises a divide error if the quotient does not fit into the destination
+        if quotient < i8::MIN as i32 || quotient > i8::MAX as i32 {
+            return Err(AxError::from(format!(
+                "Divide error in Idiv_rm8: quotient {quotient} does not fit the destination"
+            )));
+        }
 
         self.reg_write_8(AL, quotient as u8 as u64)?;
         self.reg_write_8(AH, remainder as u8 as u64)?;
@@ -64,7 +75,7 @@ impl Axecutor {
             Operand::Register(r) => self.reg_read_16(r)?,
             Operand::Memory(m) => self.mem_read_16(self.mem_addr(m))?,
             _ => fatal_error!("Invalid operand {:?} for Idiv_rm16", op),
-        } as i32;
+        } as u16 as i16 as i64; // the divisor is signed
 
         if src_val == 0 {
             return Err(AxError::from(format!(
@@ -73,9 +84,16 @@ impl Axecutor {
         }
 
         let dst_val =
-            (self.reg_read_16(AX)? as u32 | ((self.reg_read_16(DX)? as u32) << 16)) as i32;
+            (self.reg_read_16(AX)? as u32 | ((self.reg_read_16(DX)? as u32) << 16)) as i32 as i64;
 
         let (quotient, remainder) = (dst_val / src_val, dst_val % src_val);
+
+        // The CPU raises a divide error if the quotient does not fit into the destination
+        if quotient < i16::MIN as i64 || quotient > i16::MAX as i64 {
+            return Err(AxError::from(format!(
+                "Divide error in Idiv_rm16: quotient {quotient} does not fit the destination"
+            )));
+        }
 
         self.reg_write_16(AX, quotient as u16 as u64)?;
         self.reg_write_16(DX, remainder as u16 as u64)?;
@@ -95,7 +113,7 @@ impl Axecutor {
             Operand::Register(r) => self.reg_read_32(r)?,
             Operand::Memory(m) => self.mem_read_32(self.mem_addr(m))?,
             _ => fatal_error!("Invalid operand {:?} for Idiv_rm32", op),
-        } as i64;
+        } as u32 as i32 as i128; // the divisor is signed
 
         if src_val == 0 {
             return Err(AxError::from(format!(
@@ -103,9 +121,16 @@ impl Axecutor {
             )));
         }
 
-        let dst_val = (self.reg_read_32(EAX)? | (self.reg_read_32(EDX)? << 32)) as i64;
+        let dst_val = (self.reg_read_32(EAX)? | (self.reg_read_32(EDX)? << 32)) as i64 as i128;
 
         let (quotient, remainder) = (dst_val / src_val, dst_val % src_val);
+
+        // The CPU raises a divide error if the quotient does not fit into the destination
+        if quotient < i32::MIN as i128 || quotient > i32::MAX as i128 {
+            return Err(AxError::from(format!(
+                "Divide error in Idiv_rm32: quotient {quotient} does not fit the destination"
+            )));
+        }
 
         self.reg_write_32(EAX, quotient as u32 as u64)?;
         self.reg_write_32(EDX, remainder as u32 as u64)?;
@@ -137,6 +162,13 @@ impl Axecutor {
             (self.reg_read_64(RAX)? as u128 | ((self.reg_read_64(RDX)? as u128) << 64)) as i128;
 
         let (quotient, remainder) = (dst_val / src_val, dst_val % src_val);
+
+        // The CPU raises a divide error if the quotient does not fit into the destination
+        if quotient < i64::MIN as i128 || quotient > i64::MAX as i128 {
+            return Err(AxError::from(format!(
+                "Divide error in Idiv_rm64: quotient {quotient} does not fit the destination"
+            )));
+        }
 
         self.reg_write_64(RAX, quotient as u64)?;
         self.reg_write_64(RDX, remainder as u64)?;
